@@ -248,6 +248,8 @@ func loadCorpus() {
 		corpusList = append(corpusList, imageCorpus()...)
 		corpusList = append(corpusList, sinkCorpus()...)
 		corpusList = append(corpusList, inlineCorpus()...)
+		corpusList = append(corpusList, pipeOuterCorpus()...)
+		corpusList = append(corpusList, budgetCorpus()...)
 		for i, d := range bases {
 			vs := objStmVariants(fmt.Sprintf("base%d", i), d)
 			corpusList = append(corpusList, vs...)
@@ -342,11 +344,11 @@ func caseBytes(it planItem, idx int) ([]byte, string) {
 
 type workerLine struct {
 	caseResult
-	Label string   `json:"label"`
-	Case  string   `json:"case,omitempty"`
-	Obs   string   `json:"obs,omitempty"`
+	Label string      `json:"label"`
+	Case  string      `json:"case,omitempty"`
+	Obs   string      `json:"obs,omitempty"`
 	Viol  []violation `json:"viol,omitempty"`
-	File  string   `json:"file,omitempty"`
+	File  string      `json:"file,omitempty"`
 }
 
 func f7Direct(st *walkStats) {
